@@ -24,3 +24,18 @@ register(
     "Rocq/Coq proof over translated kernels + vm_compute correspondence",
     "DESIGN.md section 4 C16",
 )
+
+register(
+    "C19",
+    "Coq theorems (closed, no axioms): each configuration-ranking kernel (unconstrained, mixed radix, Z2, U1 via the "
+    "Pascal table, U1xU1) is a bijection between [0, sector size) and the sector's configurations, with sizes 2^n, "
+    "prod sizes, 2^(n-1), C(n,k), C(na,ka)C(nb,kb), for every n. Hand model of quimb/operator/configcore.py tied by "
+    "exhaustive correspondence (every rank of every sector up to a bound, numba kernels vs model inside Coq). The "
+    "'all representations agree' half is decided by an exact oracle stream on the implementation (dense, 4 sparse "
+    "formats, matvec serial/parallel, linear operator, local terms, ikron, MPO, sectors, JW/Pauli rewrites, site "
+    "relabelling, MPO_ham_* vs ham_*) against an independent numpy reference - a test stream, not a theorem.",
+    "Trusted: Coq kernel, hand model + correspondence harness; int64 overflow not modelled (C(n,k) < 2^63); the "
+    "builder's term processing and matrix assembly are modelled only by the reference semantics in the harness.",
+    "Rocq/Coq proof of rank/unrank bijections + vm_compute correspondence + exact differential oracle",
+    "DESIGN.md section 4 C19",
+)
